@@ -47,6 +47,32 @@ def gen(rng):
     return net, truth, meta
 
 
+def gen_heights(rng):
+    """3D network, approximate coordinates exact, every slope distance / zenith angle with instrument and target heights whose
+    difference exceeds tol-abs (instrument on a pillar, prism on a pole): nothing may be screened out before the reductions"""
+    net, truth, meta = netgen.make_network(rng, dim=3, n=rng.randint(4, 6), n_fixed=2, datum="fixed", noise=0.0,
+                                           kinds=["direction", "distance", "s-distance", "z-angle", "dh"], extra=0.8, approx="perturbed",
+                                           perturb=0.02, with_heights=False)
+    for p in net["points"]:
+        x, y, z = truth[p["id"]]
+        for c, v in (("x", x), ("y", y), ("z", z)):
+            if c in p:
+                p[c] = v
+    orient = {}
+    for c in net["clusters"]:
+        if c["kind"] != "obs":
+            continue
+        for ob in c["obs"]:
+            if ob["t"] in ("s-distance", "z-angle"):
+                ob["from_dh"] = rng.choice([0.0, 0.24, 1.6])
+                ob["to_dh"] = rng.choice([1.8, 2.5, 0.0]) if ob["from_dh"] < 1 else rng.choice([0.0, 0.1, 2.9])
+                ob["val"] = netgen.obs_value(ob, truth, 0.0, c.get("from"))
+                ob.pop("valstr", None)
+    meta["approx"] = "exact"
+    meta["heights"] = True
+    return net, truth, meta
+
+
 def gen_station(rng):
     """a free station observing direction + slope distance + zenith angle to fixed targets that are all above or all
     below it (or mixed); approximate coordinates of the station: xy given and z omitted / all omitted / all given"""
@@ -110,7 +136,7 @@ def run(ctx):
     n = 24 if ctx.quick else 250
     bad = 0
     for t in range(n):
-        net, truth, meta = gen_station(ctx.rng) if t % 4 == 3 else gen(ctx.rng)
+        net, truth, meta = gen_station(ctx.rng) if t % 4 == 3 else (gen_heights(ctx.rng) if t % 6 == 4 else gen(ctx.rng))
         nobs = netgen.count_obs(net)
         algs = [ctx.rng.choice(enet.ALGS)] if ctx.quick else enet.ALGS
         outs, txt = enet.run_all(ctx, bdir, net, "c06_%d" % t, algs=algs, outputs=("xml", "text"))
